@@ -113,6 +113,18 @@ CHECKS = {
    text="Generated programs and shipped sources are transpiled with emit_rust; a refusal is legal, emitted Rust must compile with rustc together with the repository's own host template and print the same output words as the VM for 1-16 samples (time advanced by one per sample).",
    note="About 0.4 s per case, so the quick tier is ~100 programs. Eight open findings of the Rust backend are tolerated by narrow predicates on the emitted Rust text or rewritten away in the generator.",
    design="2.C18"),
+ "C17": dict(
+   category="exploration",
+   technique="model-based testing of generated inline module trees and reference routes against a harness-side resolution model; exhaustive enumeration of single-route programs",
+   text="Inline module trees with random pub/private members (each function returns a distinct constant), use / multi / wildcard / pub-use chains and shadowing locals are generated together with reference sites at top level, inside modules and inside lambdas; a harness resolution model computes the unique target or 'must be rejected'. Positive programs must compile and return the model's constants, negative programs (exactly one illegal reference) must be rejected. Every well-formed single-reference program over a fixed 2-level tree (2328) is enumerated exhaustively.",
+   note="The resolution model is the trusted base (its rules for nested modules follow the module_* fixtures). Four open findings (module visibility ignored, re-export leak, file-global alias and wildcard tables) are excluded by construction or tolerated narrowly and pinned by replays.",
+   design="2.C17"),
+ "C19": dict(
+   category="exploration",
+   technique="concurrency stress with real parallelism: K compile+run jobs started together on K threads, each compared with its solo result; 3-of-3 reproduction rule",
+   text="Sets of 2-6 jobs (generated programs, shipped sources including macro programs that touch the process environment, duplicates, near-duplicates and broken texts) are first run alone and then started together behind a barrier on K OS threads, twice; every job's artefacts (bytecode listing, WASM bytes, layouts, outputs, diagnostics) must equal its solo artefacts and no job may panic only when run concurrently.",
+   note="The harness does not own the schedule: interleavings are whatever the OS produces, so absence of a race is not established; a harness-owned deterministic scheduler would need a hook inside the interner lock and was not built. Differences that do not reproduce 3 of 3 times are counted, not reported.",
+   design="2.C19"),
 }
 
 NOT_YET = {
